@@ -4,7 +4,9 @@ import (
 	"errors"
 	"fmt"
 	"strings"
+	"sync"
 	"sync/atomic"
+	"time"
 
 	crypt "github.com/sergeymakinen/go-crypt"
 )
@@ -250,6 +252,9 @@ func corrC07(out string, seed uint64, tier string, replay string) *report {
 	}
 	for i := 0; i < nh; i++ {
 		n := r.intn(12)
+		if i%4 == 0 {
+			n = 13 + r.intn(40) // long batches of registrations before the first dispatch, prefixes registered repeatedly
+		}
 		var hist []reg
 		for j := 0; j < n; j++ {
 			var p string
@@ -332,6 +337,100 @@ func corrC07(out string, seed uint64, tier string, replay string) *report {
 				"A's Check reaches handler i (its own registration completed before the call)", fmt.Sprintf("%d of %d rounds reached an older handler", stale, rounds),
 				"a Check issued after RegisterHash returned is routed to a handler registered earlier (routing to the latest registration fails under concurrent dispatch)")
 		}
+	}
+	// ---- part 4: concurrent registrations of different prefixes; concurrent dispatch calls each reach the handler ----
+	{
+		crypt.VerifResetRegistry()
+		G, each := 8, 60
+		if tier == "thorough" {
+			G, each = 16, 400
+		}
+		var hits sync.Map
+		var wg sync.WaitGroup
+		for g := 0; g < G; g++ {
+			wg.Add(1)
+			go func(g int) {
+				defer wg.Done()
+				for k := 0; k < each; k++ {
+					pre := fmt.Sprintf("$g%dk%d$", g, k)
+					crypt.RegisterHash(pre, func(h, p string) error { hits.Store(h, true); return nil })
+				}
+			}(g)
+		}
+		wg.Wait()
+		lost := 0
+		var firstLost string
+		for g := 0; g < G; g++ {
+			for k := 0; k < each; k++ {
+				h := fmt.Sprintf("$g%dk%d$x", g, k)
+				err := crypt.Check(h, "p")
+				if _, ok := hits.Load(h); err != nil || !ok {
+					lost++
+					if firstLost == "" {
+						firstLost = h + " -> " + fmt.Sprint(err)
+					}
+				}
+			}
+		}
+		if lost > 0 {
+			rep.fail(map[string]interface{}{"history": fmt.Sprintf("%d goroutines register %d distinct prefixes each, concurrently; afterwards every prefix is checked", G, each), "first": firstLost},
+				"every registered prefix is routed to its handler", fmt.Sprintf("%d of %d registrations are not in effect", lost, G*each), "a registration made concurrently with others is lost")
+		}
+		rep.count("concurrent registrations", true)
+		// every dispatch call is passed through to the handler with its own arguments, also when calls overlap
+		// (handlers that take a while, identical calls, and calls whose hash+'$'+password texts coincide)
+		crypt.VerifResetRegistry()
+		var mu sync.Mutex
+		got := map[string]int{}
+		crypt.RegisterHash("$x$", func(h, p string) error {
+			time.Sleep(200 * time.Microsecond)
+			mu.Lock()
+			got[h+"\x00"+p]++
+			mu.Unlock()
+			return fmt.Errorf("r:%s:%s", h, p)
+		})
+		pairs := [][2]string{{"$x$salt$sum", "pass$word"}, {"$x$salt$sum$pass", "word"}, {"$x$salt$sum", "pass$word"}, {"$x$a", "b"}, {"$x$a", "b"}, {"$x$", ""}, {"$x$a$", "b"}, {"$x$a", "$b"}}
+		want := map[string]int{}
+		wrong := 0
+		var firstWrong string
+		var wg2 sync.WaitGroup
+		start := make(chan struct{})
+		reps := 40
+		for rpt := 0; rpt < reps; rpt++ {
+			for _, pr := range pairs {
+				want[pr[0]+"\x00"+pr[1]]++
+				wg2.Add(1)
+				go func(h, p string) {
+					defer wg2.Done()
+					<-start
+					err := crypt.Check(h, p)
+					if err == nil || err.Error() != "r:"+h+":"+p {
+						mu.Lock()
+						wrong++
+						if firstWrong == "" {
+							firstWrong = fmt.Sprintf("Check(%q, %q) returned %v", h, p, err)
+						}
+						mu.Unlock()
+					}
+				}(pr[0], pr[1])
+			}
+		}
+		close(start)
+		wg2.Wait()
+		mu.Lock()
+		for k, n := range want {
+			if got[k] != n && firstWrong == "" {
+				firstWrong = fmt.Sprintf("handler was called %d times with %q, %d calls were made", got[k], strings.Replace(k, "\x00", " / ", 1), n)
+				wrong++
+			}
+		}
+		mu.Unlock()
+		if wrong > 0 {
+			rep.fail(map[string]interface{}{"history": fmt.Sprintf("%d overlapping Check calls on one prefix (identical calls, and calls whose hash+$+password coincide)", reps*len(pairs)), "first": firstWrong},
+				"every call invokes the handler once with its own hash and password and returns that invocation's result", fmt.Sprintf("%d deviations", wrong),
+				"overlapping dispatch calls are merged, dropped or answered with another call's result")
+		}
+		rep.count("overlapping dispatch", true)
 	}
 	must(cs2.flush())
 	rep.CaseSets = []string{"C07_prefix", "C07_hist"}
